@@ -6,7 +6,7 @@ PROPS = ["Props/C06.v"]
 
 def run(ctx):
     schedcheck.run(ctx, "C06", PROPS,
-                   [("subslot", 200, 2000), ("deps", 60, 600), ("alap", 100, 800), ("alapcore", 80, 800), ("sd", 100, 1000), ("sdteam", 40, 400), ("taskalap", 40, 300), ("core", 40, 300), ("alapfull", 60, 600), ("alapslot0", 30, 200)],
+                   [("subslot", 200, 2000), ("deps", 60, 600), ("alap", 100, 800), ("alapcore", 80, 800), ("sd", 100, 1000), ("sdteam", 40, 400), ("taskalap", 40, 300), ("core", 40, 300), ("alapfull", 60, 600), ("alapslot0", 30, 200), ("fwdend", 80, 600), ("alapsub", 40, 300)],
                    ["c06"],
                    ["a first/last slot holding less than one second of work cannot be told from no work through dates rounded to the second",
                     "the theorem covers the whole-slot frame; the position inside a shared slot is checked on the implementation by the oracle"],
